@@ -86,10 +86,10 @@ func (w *World) checkImage(data []byte, exp *RState, oracle, label string) {
 	w.begin(label, true, false)
 	f := NewMemFileFrom(data)
 	cb := gkvlite.StoreCallbacks{KeyCompareForCollection: func(name string) gkvlite.KeyCompare {
-		if c, ok := exp.Colls[name]; ok {
+		if c, ok := exp.Colls[name]; ok && orderOf(c.Cmp) != "bytes" {
 			return Cmps[orderOf(c.Cmp)]
 		}
-		return nil
+		return nil // default order
 	}}
 	st, err := gkvlite.NewStoreEx(f, cb)
 	if err != nil {
